@@ -9,7 +9,17 @@ from check import K_ASSUMPTIONS, finish, run_k
 M_FUNCS = {}   # prop -> callable(tier, only) -> (parts, assumptions, extra_cov)
 D_FUNCS = {}
 
-LEVEL = {}     # prop -> evidence level
+def _levels():
+    import json
+    import os
+    try:
+        m = json.load(open(os.path.join(os.path.dirname(os.path.dirname(os.path.abspath(__file__))), "MANIFEST.json")))
+        return {c["property_id"]: c["level_claimed"]["category"] for c in m["checks"]}
+    except (OSError, ValueError, KeyError):
+        return {}
+
+
+LEVEL = _levels()     # prop -> evidence level (as claimed in MANIFEST.json)
 
 
 def _sel(items, only, key):
@@ -43,7 +53,7 @@ def make(prop):
     return run
 
 
-CLAIMED = ["C01", "C02", "C03", "C04", "C05", "C06", "C07", "C09", "C10", "C11", "C12", "C13", "C14", "C17", "C18"]
+CLAIMED = ['C01', 'C02', 'C04', 'C05', 'C06', 'C09', 'C10', 'C11', 'C12', 'C13', 'C14']
 CHECKS = {p: make(p) for p in CLAIMED}
 
 import engine_m  # noqa: E402,F401  registers M_FUNCS
